@@ -229,6 +229,8 @@ class AtomsEngine(Engine):
                 hot.append({k: op[k] for k in ("op", "name")})
             if op["op"] in ("sp", "atom") and rng.random() < 0.3:
                 op["fault"] = self._fault(rng, op)
+            elif op["op"] in ("sp", "atom") and rng.random() < 0.15:
+                op["interrupt"] = int(10 ** rng.uniform(0, 4.1)) - 1
             if op["op"] in ("sp", "atom", "atten") and callers > 1 and rng.random() < 0.35:
                 pts = []
                 for _ in range(rng.randrange(1, 4)):
@@ -302,6 +304,19 @@ class AtomsEngine(Engine):
             self._atten(ctx, op)
             return
         self._kw = bool(op.get("kw"))
+        if top and op.get("interrupt") is not None:
+            # the caller is interrupted (Ctrl-C, cancelled task) in the middle of this lookup and
+            # then simply asks again: the second answer is judged like any other
+            ctx.fault_configured("interrupt_in_lookup")
+            pre = seams.Preemptor(self._trace_prefix, {op["interrupt"]: seams.interrupt_now})
+            try:
+                pre.run(lambda: self._call(kind, op["name"]))
+                ctx.probe("interruption_point_not_reached")
+            except seams.SimInterrupt:
+                ctx.fault_fired("interrupt_in_lookup")
+                ctx.log("interrupted", kind, op["name"], op["interrupt"])
+            except Exception:  # noqa: BLE001  (invalid names raise before the point is reached)
+                pass
         self._lookup(ctx, kind, op["name"], op.get("fault") if top else None,
                      op.get("preempt") if top else None)
 
